@@ -782,7 +782,7 @@ def r05_11(ctx):
         if f.crate != "sonic_rs" or f.kind == "Closure":
             continue
         adt = f.self_adt or ""
-        if not adt.endswith(("serde::ser::Serializer", "serde::ser::MapKeySerializer")):
+        if not adt.endswith(("serde::ser::Serializer", "serde::ser::MapKeySerializer", "serde::ser::Compound")):
             continue
         sparams = [i for i in range(1, f.argc + 1) if f.locals[i]["ty"].replace("'static ", "") in ("&str", "&[u8]")]
         if not sparams:
@@ -792,14 +792,16 @@ def r05_11(ctx):
         for g in prog.with_closures(f):
             for b, t in g.calls():
                 nm = t["callee"].rsplit("::", 1)[-1]
-                if nm not in ("write_all", "write_str", "extend_from_slice", "write", "push_str", "write_raw") or len(t["args"]) < 2:
+                if nm not in ("write_all", "write_str", "extend_from_slice", "write", "push_str", "write_raw", "write_raw_value", "write_string_fragment") or len(t["args"]) < 2:
                     continue
                 if g.id != f.id:
                     continue
-                l = op_local(t["args"][1])
-                sl, leaves = backward_slice(f, [l]) if l is not None else (set(), [])
-                if any(lf[0] == "param" and lf[1] in sparams for lf in leaves):
-                    bad.append(t)
+                for a in t["args"][1:]:
+                    l = op_local(a)
+                    sl, leaves = backward_slice(f, [l]) if l is not None else (set(), [])
+                    if any(lf[0] == "param" and lf[1] in sparams for lf in leaves):
+                        bad.append(t)
+                        break
         key = f"{adt.rsplit('::', 1)[-1]}::{f.name}"
         seen[key] += 1
         ctx.ob("R05.11", f"{key}#{seen[key]}", not bad, f.loc(bad[0]["ln"] if bad else None),
